@@ -482,7 +482,10 @@ func (w *World) DamageData(r *Run, enabled []string) string {
 		}
 		// the file hashes change regime at 16 KiB: aim there sometimes
 		if n > 16384 && t.Bool(1, 5, label+"-16k") {
-			return 16383 + t.Draw(3, label+"-16k-d")
+			if k := 16383 + t.Draw(3, label+"-16k-d"); k < n {
+				return k
+			}
+			return n - 1
 		}
 		// bias to slice boundaries and ends
 		switch t.Pick([]int{3, 1, 1, 2}, label+"-class") {
